@@ -444,6 +444,13 @@ func paramTypes(sig *types.Signature) []types.Type {
 
 // runReplayTest injects an in-package test through a build overlay and runs it against the real code.
 func runReplayTest(ctx *Context, pkgPath, src, outDir string) (bool, string) {
+	// a replay of one solver model finishes in milliseconds: 60 s catches a wedged one
+	return runReplayTestTimeout(ctx, pkgPath, src, outDir, 60*time.Second)
+}
+
+// runReplayTestTimeout runs an injected in-package test against the working tree; testTimeout bounds the test binary
+// (bounded searches need minutes under load, a single replayed model does not).
+func runReplayTestTimeout(ctx *Context, pkgPath, src, outDir string, testTimeout time.Duration) (bool, string) {
 	os.MkdirAll(outDir, 0o755)
 	tp := ctx.tpkgs[pkgPath]
 	if tp == nil {
@@ -479,9 +486,10 @@ func runReplayTest(ctx *Context, pkgPath, src, outDir string) (bool, string) {
 	js, _ := json.Marshal(map[string]any{"Replace": ov})
 	ovPath := filepath.Join(outDir, "overlay.json")
 	os.WriteFile(ovPath, js, 0o644)
-	cctx, cancel := context.WithTimeout(context.Background(), 10*time.Minute)
+	// the outer limit also covers a cold build of the package (minutes for the sqlite-dependent ones)
+	cctx, cancel := context.WithTimeout(context.Background(), testTimeout+10*time.Minute)
 	defer cancel()
-	cmd := exec.CommandContext(cctx, "go", "test", "-tags", "verif", "-overlay", ovPath, "-vet=off", "-timeout", "60s", "-count=1", "-run", "^TestGocvReplay$", "-v", pkgPath)
+	cmd := exec.CommandContext(cctx, "go", "test", "-tags", "verif", "-overlay", ovPath, "-vet=off", "-timeout", fmt.Sprintf("%ds", int(testTimeout.Seconds())), "-count=1", "-run", "^TestGocvReplay$", "-v", pkgPath)
 	cmd.Dir = repoDir
 	var out bytes.Buffer
 	cmd.Stdout, cmd.Stderr = &out, &out
